@@ -141,10 +141,15 @@ impl<T: Send + Sync + 'static> Probe<T> {
             }
             self.act(&c);
         }
-        // overlapping subscriptions: from inside its Terminate/Error handler (the "repeat on complete"
-        // idiom) a sink may make ANOTHER sink act; it does not use its own talkback any more
-        if !react && cfg.cross && !cfg.passive && env.with_sink(self.k, |s| s.ended) {
-            let xs: Vec<String> = self.options(false).into_iter().filter(|o| o.starts_with("x ")).collect();
+        // from inside its Terminate/Error handler (the "repeat on complete" idiom) a sink may make ANOTHER
+        // sink act (cfg.cross) or an upstream emit / end / greet (cfg.reentrant); it does not use its own
+        // talkback any more
+        if !react && (cfg.cross || cfg.reentrant) && !cfg.passive && env.with_sink(self.k, |s| s.ended) {
+            let xs: Vec<String> = self
+                .options(false)
+                .into_iter()
+                .filter(|o| o.starts_with("x ") || o.starts_with("kick"))
+                .collect();
             if !xs.is_empty() {
                 let mut opts: Vec<String> = vec!["none".into()];
                 opts.extend(xs);
